@@ -23,6 +23,7 @@ type scenario struct {
 	Extra  int           `json:"extra"`      // request size variation
 	Dest   int           `json:"dest"`
 	CtxDL  bool          `json:"ctx_deadline"` // the caller's context carries a far-away deadline
+	CtxAt  time.Duration `json:"ctx_deadline_at"` // >0: the caller's context deadline expires at this instant (mid-try)
 }
 
 var dests = []*net.UDPAddr{
@@ -64,6 +65,11 @@ func run(t *testing.T, sc scenario, want []byte, xid uint32) (res result) {
 			var c2 context.CancelFunc
 			ctx, c2 = context.WithTimeout(ctx, 1000*time.Hour)
 			defer c2()
+		}
+		if sc.CtxAt > 0 {
+			var c3 context.CancelFunc
+			ctx, c3 = context.WithDeadline(ctx, start.Add(sc.CtxAt))
+			defer c3()
 		}
 		defer cancel()
 		done := make(chan struct{})
@@ -146,6 +152,14 @@ func judge(r *mon.Rec, t *testing.T, sc scenario) {
 	if sc.Accept >= 0 {
 		expWrites = sc.Accept + 1
 	}
+	if sc.CtxAt > 0 { // only the transmissions scheduled before the context's deadline
+		expWrites = 0
+		for k := 0; k < tries; k++ {
+			if sc.T*time.Duration((int64(1)<<uint(k))-1) < sc.CtxAt {
+				expWrites++
+			}
+		}
+	}
 	// every transmission: on schedule, identical bytes, requested destination
 	for k, w := range res.writes {
 		if k >= expWrites {
@@ -170,6 +184,11 @@ func judge(r *mon.Rec, t *testing.T, sc scenario) {
 		return
 	}
 	switch {
+	case sc.CtxAt > 0:
+		if !res.returned || res.err != context.DeadlineExceeded || res.retAt != sc.CtxAt {
+			bad("context-deadline", "context deadline at %v: call returned=%v at %v with err=%v (want the context's error at that instant and no further transmission)", sc.CtxAt, res.returned, res.retAt, res.err)
+			return
+		}
 	case sc.Accept >= 0:
 		tryStart := sc.T * time.Duration((int64(1)<<uint(sc.Accept))-1)
 		tryLen := sc.T * time.Duration(int64(1)<<uint(sc.Accept))
@@ -202,7 +221,7 @@ func judge(r *mon.Rec, t *testing.T, sc scenario) {
 			return
 		}
 	}
-	r.Shape(fmt.Sprintf("%s/%v/%d/%d/%s/%d/%d/%v", sc.Fam, sc.T, sc.N, sc.Accept, sc.Off, sc.Extra, sc.Dest, sc.CtxDL), sc.N != 1 || sc.Accept >= 0)
+	r.Shape(fmt.Sprintf("%s/%v/%d/%d/%s/%d/%d/%v/%v", sc.Fam, sc.T, sc.N, sc.Accept, sc.Off, sc.Extra, sc.Dest, sc.CtxDL, sc.CtxAt), sc.N != 1 || sc.Accept >= 0)
 	r.Count("transmissions_checked", len(res.writes))
 	if r.NSamples() < 6 && sc.N >= 2 && sc.N <= 3 {
 		r.Sample(map[string]any{"scenario": sc, "transmissions_at": times(res.writes), "returned_at": res.retAt.String(), "err": fmt.Sprint(res.err)})
@@ -233,14 +252,18 @@ func grid(quick bool) []scenario {
 				for _, ex := range extras {
 					for d := 0; d < len(dests); d++ {
 						for _, dl := range []bool{false, true} {
-							out = append(out, scenario{fm, T, n, -1, "", ex, d, dl})
+							out = append(out, scenario{fm, T, n, -1, "", ex, d, dl, 0})
+							if n >= 2 && !dl { // the context's deadline expires in the middle of try 1 / try 2
+								out = append(out, scenario{Fam: fm, T: T, N: n, Accept: -1, Extra: ex, Dest: d, CtxAt: T + T/2})
+								out = append(out, scenario{Fam: fm, T: T, N: n, Accept: -1, Extra: ex, Dest: d, CtxAt: T / 3})
+							}
 							kmax := n
 							if n < 0 {
 								kmax = 4
 							}
 							for k := 0; k < kmax; k++ {
 								for _, off := range []string{"start", "middle", "last"} {
-									out = append(out, scenario{fm, T, n, k, off, ex, d, dl})
+									out = append(out, scenario{fm, T, n, k, off, ex, d, dl, 0})
 								}
 							}
 						}
